@@ -281,7 +281,7 @@ func runC03(c *eng.Ctx) {
 				onHW := eng.CmpEdges(fn, eng.Load(segF, nil), eng.Load(hwSegF, nil), eng.EQ)
 				isMin := func(v ssa.Value) bool {
 					call, ok := v.(*ssa.Call)
-					if !ok || eng.CalleeRef(&call.Call) != "server/commitlog.min" {
+					if !ok || !(eng.CalleeRef(&call.Call) == "server/commitlog.min" || isBuiltinCall(call, "min")) {
 						return false
 					}
 					for _, a := range call.Call.Args {
